@@ -1,251 +1,11 @@
 package verifcheck
 
-import (
-	"fmt"
-	"runtime/debug"
-	"testing"
-
-	"github.com/sanonone/kektordb/internal/verifkit"
-	"pgregory.net/rapid"
-)
-
-// HistoryMode selects which oracles run while a history is interpreted.
-type HistoryMode struct {
-	CheckEveryOp    bool // C04: full model comparison after every op
-	RoundTrip       bool // C01: dump before Close == dump after Open, then model comparison, then a second restart
-	RejectedNoop    bool // C05: dump before == dump after for every op that returned an error
-	FinalRestart    bool // close/reopen at the end and compare with the model
-	UsableAfterReject bool
-}
-
-// RunHistory interprets ops. It returns "" or a violation message (with the trace of what happened).
-func RunHistory(ops []Op, mode HistoryMode, seed int64) (msg string, r *Runner) {
-	r, err := NewRunner(seed)
-	if err != nil {
-		return "harness: cannot open engine: " + err.Error(), nil
-	}
-	// a read of an unmapped arena page becomes a recoverable panic (and thus a shrinkable failure)
-	defer debug.SetPanicOnFault(debug.SetPanicOnFault(true))
-	defer func() {
-		if p := recover(); p != nil {
-			msg = fmt.Sprintf("panic while executing the history: %v\n%s", p, trimStack(debug.Stack()))
-		}
-		r.Close()
-	}()
-	fail := func(i int, op Op, m string) string {
-		return fmt.Sprintf("step %d %s(idx=%s id=%s): %s", i, op.K, op.Idx, op.ID, m)
-	}
-	for i, op := range ops {
-		var before *Dump
-		if mode.RejectedNoop && op.K != KRestart {
-			before, err = r.Dump()
-			if err != nil {
-				return fail(i, op, "reading the engine failed: "+err.Error()), r
-			}
-		}
-		if op.K == KRestart && mode.RoundTrip {
-			if m := r.restartRoundTrip(); m != "" {
-				return fail(i, op, m), r
-			}
-			continue
-		}
-		if m := r.Step(op); m != "" {
-			return fail(i, op, m), r
-		}
-		if mode.RejectedNoop && r.LastErr != nil && before != nil {
-			after, err := r.Dump()
-			if err != nil {
-				return fail(i, op, "reading the engine failed after a rejected op: "+err.Error()), r
-			}
-			if d := DiffDumps(before, after); d != "" {
-				return fail(i, op, fmt.Sprintf("the op was rejected (%v) but changed the observable state: %s", r.LastErr, d)), r
-			}
-		}
-		if mode.CheckEveryOp || op.K == KRestart {
-			if m := r.CheckModel(); m != "" {
-				return fail(i, op, "engine and reference model disagree: "+m), r
-			}
-		}
-	}
-	if m := r.CheckModel(); m != "" {
-		return "at the end of the history engine and reference model disagree: " + m, r
-	}
-	if mode.FinalRestart {
-		if m := r.restartRoundTrip(); m != "" {
-			return "final restart: " + m, r
-		}
-	}
-	return "", r
-}
-
-// restartRoundTrip: dump, Close, Open, dump, compare both ways, and do it twice (a second restart must change nothing).
-func (r *Runner) restartRoundTrip() string {
-	for cycle := 0; cycle < 2; cycle++ {
-		before, err := r.Dump()
-		if err != nil {
-			return "reading the engine before Close failed: " + err.Error()
-		}
-		if err := r.Restart(); err != nil {
-			return err.Error()
-		}
-		after, err := r.Dump()
-		if err != nil {
-			return "reading the engine after Open failed: " + err.Error()
-		}
-		if d := DiffDumps(before, after); d != "" {
-			return fmt.Sprintf("state after Close/Open (restart #%d in a row) differs from the state before: %s", cycle+1, d)
-		}
-		if m := CheckAgainstModel(after, r.M); m != "" {
-			return fmt.Sprintf("after Close/Open (restart #%d in a row) engine and reference model disagree: %s", cycle+1, m)
-		}
-	}
-	return ""
-}
-
-// classify returns labels describing what a history exercises.
-func classify(ops []Op) map[string]bool {
-	l := map[string]bool{}
-	deleted := map[string]bool{}
-	sinceAdmin := 0
-	afterSnapshot := false
-	for _, op := range ops {
-		key := op.Idx + "/" + op.ID
-		switch op.K {
-		case KDel:
-			deleted[key] = true
-			l["has-delete"] = true
-		case KAdd:
-			if deleted[key] {
-				l["re-add-of-deleted-id"] = true
-			}
-			if op.Meta == nil {
-				l["add-without-metadata"] = true
-			}
-			if afterSnapshot {
-				l["write-after-snapshot"] = true
-			}
-		case KBatch:
-			if len(op.Items) >= 8 {
-				l["batch>=8"] = true
-			}
-			l["has-batch"] = true
-			if afterSnapshot {
-				l["write-after-snapshot"] = true
-			}
-		case KImport:
-			l["has-import"] = true
-		case KMaint:
-			if len(deleted) > 0 {
-				l["maintenance-after-delete"] = true
-			}
-			l["has-"+op.Task] = true
-		case KCompress:
-			l["has-compress"] = true
-		case KSnapshot:
-			afterSnapshot = true
-			l["has-snapshot"] = true
-		case KRewrite:
-			l["has-rewrite"] = true
-			if len(deleted) > 0 {
-				l["delete-then-rewrite"] = true
-			}
-		case KRestart:
-			l["has-restart"] = true
-			if sinceAdmin > 0 {
-				l["restart-after-write"] = true
-			}
-			afterSnapshot = false
-		case KEvolve:
-			l["has-evolve"] = true
-		case KLink:
-			l["has-link"] = true
-			if len(op.Props) == 0 {
-				l["prop-less-edge"] = true
-			}
-		case KUnlink:
-			l["has-unlink"] = true
-		case KDrop:
-			l["has-drop"] = true
-		case KSetMeta, KReinforce:
-			if afterSnapshot {
-				l["write-after-snapshot"] = true
-			}
-		}
-		switch op.K {
-		case KSnapshot, KRewrite, KCompress, KMaint, KRestart, KFlush:
-			if op.K != KFlush {
-				sinceAdmin = 0
-			}
-		default:
-			sinceAdmin++
-		}
-	}
-	return l
-}
-
-func labelsOf(m map[string]bool) []string {
-	var out []string
-	for k, v := range m {
-		if v {
-			out = append(out, k)
-		}
-	}
-	sortStrings(out)
-	return out
-}
+import "testing"
 
 func c04Params() GenParams {
 	return GenParams{MinOps: 4, MaxOps: 40, WKV: 2, WCreate: 3, WDrop: 1, WAdd: 10, WBatch: 4, WImport: 1, WDel: 6, WMeta: 4, WReinforce: 2, WEvolve: 2,
 		WLink: 3, WUnlink: 2, WConfig: 1, WAutoLinks: 1, WSnapshot: 1, WRewrite: 1, WCompress: 1, WMaint: 4, WFlush: 0, WRestart: 1,
 		InvalidPct: 8, AllowInt8: true, AllowMemory: true, AllowAutoLink: true, AllowText: true, SmallEfC: true, BigBatch: true}
-}
-
-func runHistoryProperty(t *testing.T, prop, part, rule string, p GenParams, mode HistoryMode, quick, thorough int, nontrivial func(map[string]bool) bool) {
-	col := verifkit.New(prop, part, rule)
-	defer col.Finish()
-	if rp := verifkit.ReplayPath(); rp != "" {
-		if verifkit.ReplayPart(rp) != part {
-			return
-		}
-		var ops []Op
-		if err := verifkit.LoadReplay(rp, &ops); err != nil {
-			t.Fatalf("replay: %v", err)
-		}
-		col.InFlight(ops)
-		msg, _ := RunHistory(ops, mode, 1)
-		col.Landed()
-		col.Case(ops, true, "replay")
-		if msg != "" {
-			col.Fail(ops, "%s", msg)
-			t.Fatal(msg)
-		}
-		return
-	}
-	verifkit.RapidSetup(quick, thorough)
-	rapid.Check(t, func(rt *rapid.T) {
-		ops := GenHistory(p).Draw(rt, "history")
-		ops = applyKnownExclusions(ops, col)
-		lab := classify(ops)
-		h := verifkit.Hash(ops)
-		col.CaseH(h, ops, nontrivial(lab), labelsOf(lab)...)
-		col.InFlight(ops)
-		msg, r := RunHistory(ops, mode, verifkit.CaseSeed(h))
-		col.Landed()
-		if r != nil {
-			for k, n := range r.Excluded {
-				for i := 0; i < n; i++ {
-					col.Excluded(k)
-				}
-			}
-		}
-		if msg != "" {
-			if r != nil {
-				msg += "\ntrace: " + fmt.Sprint(r.Trace)
-			}
-			col.Fail(ops, "%s", msg)
-			rt.Fatalf("%s", msg)
-		}
-	})
 }
 
 func TestVerif_C04_model(t *testing.T) {
@@ -255,12 +15,4 @@ func TestVerif_C04_model(t *testing.T) {
 		func(l map[string]bool) bool {
 			return l["re-add-of-deleted-id"] || l["batch>=8"] || l["maintenance-after-delete"]
 		})
-}
-
-func trimStack(b []byte) string {
-	s := string(b)
-	if len(s) > 2500 {
-		s = s[:2500]
-	}
-	return s
 }
